@@ -36,7 +36,7 @@ let rec parse_val (toks : ostring list ref) : value =
           | _ -> failwith "D")
     | 'S' -> VStr (bytes_of_hex body)
     | 'I' -> (match split_colon body with [k; n] -> VGoInt (kind_of_string k, z_of_dec n) | _ -> failwith "I")
-    | 'G' -> VGoFloat (bytes_of_hex body)
+    | 'G' | 'g' -> VGoFloat (bytes_of_hex body)
     | 'M' -> (match split_colon body with
         | [ns; off] | [ns; off; _] -> VTime { t_ns = z_of_dec ns; t_off = z_of_dec off }   (* a zone name, if any, is not part of the model's time *)
         | _ -> failwith "M")
@@ -65,7 +65,7 @@ let rec parse_val (toks : ostring list ref) : value =
           let v = parse_val toks in (kb, v)))
     | 'H' -> VFunc (z_of_dec body)
     | 'B' -> VBuiltin (bytes_of_hex body)
-    | 'P' -> VNilPtr
+    | 'P' -> if t = "Pd" then VNull else VNilPtr   (* a nil *decimal.Big is normalised to the untyped null when read *)
     | 'C' -> VCtx
     | 'X' -> VOpaque (z_of_dec body)
     | _ -> failwith ("value token " ^ t)
